@@ -499,6 +499,7 @@ func c07R4(c *Ctx, rule string) {
 	}
 	var auth, obf, getSession *ssa.Call
 	var userCalls []*ssa.Call
+	dynUser := map[*ssa.Call]bool{}
 	allInstrs(dc, func(i ssa.Instruction) {
 		call, ok := i.(*ssa.Call)
 		if !ok {
@@ -514,6 +515,21 @@ func c07R4(c *Ctx, rule string) {
 			getSession = call
 		case strings.HasSuffix(n, "userPanel).GetUser"), strings.HasSuffix(n, "userPanel).GetBypassUser"):
 			userCalls = append(userCalls, call)
+		case n == "":
+			// a call through a function value: every function it can resolve to is one of the two lookups
+			// (`lookup := panel.GetUser; if bypass { lookup = panel.GetBypassUser }; lookup(uid)`)
+			cs := p.Callees(call)
+			all := len(cs) > 0
+			for _, g := range cs {
+				gn := strings.TrimSuffix(fnName(g), "$bound")
+				if !strings.HasSuffix(gn, "userPanel).GetUser") && !strings.HasSuffix(gn, "userPanel).GetBypassUser") {
+					all = false
+				}
+			}
+			if all {
+				userCalls = append(userCalls, call)
+				dynUser[call] = true
+			}
 		}
 	})
 	adminGate := func(at ssa.Instruction) bool {
@@ -562,6 +578,13 @@ func c07R4(c *Ctx, rule string) {
 					s := a.String()
 					if strings.Contains(s, "GetUser") || strings.Contains(s, "GetBypassUser") {
 						ue = true
+					}
+					for _, side := range []ssa.Value{a.X, a.Y} {
+						if ex, isEx := side.(*ssa.Extract); isEx && ex.Index == 1 {
+							if hc, isC := ex.Tuple.(*ssa.Call); isC && dynUser[hc] {
+								ue = true
+							}
+						}
 					}
 					// the lookup moved into a helper split off from dispatchConnection (authoriseUID, resolveActiveUser)
 					for _, side := range []ssa.Value{a.X, a.Y} {
